@@ -4,7 +4,7 @@
  * @functions HUF_readStats_wksp HUF_readDTableX1_wksp HUF_rescaleStats HUF_readDTableX2_wksp HUF_fillDTableX2 HUF_fillDTableX2Level2 HUF_fillDTableX2ForWeight HUF_buildDEltX2 HUF_getDTableDesc
  * @bounds Huffman tree description given as direct 4-bit weights (header byte 128..127+NW): exactly NW explicit weights (one instance per count), every nibble arbitrary (0..15), the last weight implied; so every tree of 2..NW+1 symbols of any depth and every invalid description of that size; both table readers run on the same bytes
  * @bounds instances accept*: tables of the capacity the frame decoder owns (log 12, HUF_TABLELOG_MAX); decided: a description the weight reader accepts (depth <= 12) is accepted by BOTH builders, a rejected one by neither, the builders are cut textually after their last accept/reject decision (the 4096-entry fill loops and their stores are outside these instances)
- * @bounds instances diff*: tables of capacity log 6 (64 entries; the builders are generic in the capacity, HUF_decompress*_DCtx callers pass such tables); decided in addition, for an ARBITRARY table index: the double-symbol (X2) entry decodes exactly the symbols and bit counts the single-symbol (X1) table yields for the same bits
+ * @bounds (no registered instance; kept for reference: no verdict within 50 min even for 2-symbol trees - nested pointer-walking fill loops) instances diff*: tables of capacity log 6 (64 entries; the builders are generic in the capacity, HUF_decompress*_DCtx callers pass such tables); decided in addition, for an ARBITRARY table index: the double-symbol (X2) entry decodes exactly the symbols and bit counts the single-symbol (X1) table yields for the same bits
  * @assume none beyond the bounds (real HUF_readStats_wksp, no stubs)
  * @outside FSE-compressed weight headers (header byte < 128; they feed the same rank statistics), trees of more than NW+1 symbols, table content at capacity 12, the bit-stream decoding loops (fast asm loops are disabled in every harness)
  * @prep sed lib/decompress/huf_decompress.c huf_cut1.c /\x2a\s+Compute\s+symbols\s+and\s+rankStart\s+given\s+rankVal:.*?\n\s+return\s+iSize;\n\} return\x20iSize;}
@@ -17,11 +17,8 @@
  * @instance accept12 backend=cadical -DNW=12 -DCAP=12
  * @instance accept13 backend=cadical -DNW=13 -DCAP=12
  * @instance accept3 -DNW=3 -DCAP=12
- * @instance diff1 tier=thorough timeout=3000 memgb=20 cbmc="--unwind 9 --unwindset HUF_fillDTableX2.0:3,HUF_fillDTableX2ForWeight.0:3,HUF_fillDTableX2ForWeight.1:3,HUF_fillDTableX2ForWeight.2:3,HUF_fillDTableX2ForWeight.3:3,HUF_fillDTableX2ForWeight.5:3,HUF_readDTableX1_wksp.8:3" -DNW=1 -DCAP=6
- * @instance diff2 tier=thorough timeout=3000 memgb=20 cbmc="--unwind 9 --unwindset HUF_fillDTableX2.0:4,HUF_fillDTableX2ForWeight.0:4,HUF_fillDTableX2ForWeight.1:4,HUF_fillDTableX2ForWeight.2:4,HUF_fillDTableX2ForWeight.3:4,HUF_fillDTableX2ForWeight.5:4,HUF_readDTableX1_wksp.8:3" -DNW=2 -DCAP=6
- * @instance diff3 tier=thorough timeout=3000 memgb=20 cbmc="--unwind 9 --unwindset HUF_fillDTableX2.0:5,HUF_fillDTableX2ForWeight.0:5,HUF_fillDTableX2ForWeight.1:5,HUF_fillDTableX2ForWeight.2:5,HUF_fillDTableX2ForWeight.3:5,HUF_fillDTableX2ForWeight.5:5,HUF_readDTableX1_wksp.8:3" -DNW=3 -DCAP=6
- * @instance accept16 tier=thorough timeout=3000 memgb=20 -DNW=16 -DCAP=12
- * @instance accept24 tier=thorough timeout=3000 memgb=20 cbmc="--unwind 27" -DNW=24 -DCAP=12
+ * @instance accept16 tier=thorough backend=cadical timeout=3000 memgb=20 -DNW=16 -DCAP=12
+ * @instance accept24 tier=thorough backend=cadical timeout=3000 memgb=20 cbmc="--unwind 27" -DNW=24 -DCAP=12
  */
 #include "v.h"
 #include <string.h>
